@@ -28,6 +28,14 @@ pub open spec fn acc_step(p: Seq<u8>, b: u8) -> (Seq<u8>, Option<Seq<u8>>) {
     else { (p.push(b), None) }
 }
 
+/// input that continues well-formed text: a first octet when nothing is pending, or a continuation octet in
+/// the range the pending lead allows
+pub open spec fn good_step(p: Seq<u8>, b: u8) -> bool {
+    pending_ok(p) && (
+        (p.len() == 0 && (b < 0x80 || lead_width(b) > 0))
+        || (p.len() > 0 && is_continuation_byte(b) && (p.len() == 1 ==> second_ok(p[0], b))))
+}
+
 /// fold of acc_step: (pending after s, number of scalars emitted)
 pub open spec fn scan(p0: Seq<u8>, s: Seq<u8>) -> (Seq<u8>, nat)
     decreases s.len()
